@@ -1,7 +1,7 @@
 (* C19 — Walk, transform and paths address exactly the members of a value.
    Statements only; proofs are `exact <lemma>` into Proofs/WalkProofs.v. *)
 From Coq Require Import Sorted.
-From Cty Require Import Base Ty BigFloat Value Hash Ops Refine SetAlg SetAlgProofs Walk WalkProofs JsonRoundTrip WalkIdentity.
+From Cty Require Import Base Ty BigFloat Value Hash Ops Refine SetAlg SetAlgProofs Walk WalkProofs JsonRoundTrip WalkIdentity WalkResolve.
 Open Scope Z_scope.
 
 (* path sets: the hash is coherent with path equivalence for ALL paths (any keys) ... *)
@@ -70,3 +70,29 @@ Theorem C19_identity_transform_any_fuel : forall norm unk n t p, RT norm unk t p
   forall f q, (n < f)%nat -> transform_at norm (fun _ x => Ok x) (fun _ x => Ok x) f q (V t p) = Ok (V t p).
 Proof. exact transform_identity_at. Qed.
 Print Assumptions C19_identity_transform_any_fuel.
+
+(* ---- every path Walk reports, applied to the root, returns the member reported with it, at every depth ---- *)
+(* for every value of the structural fragment [RT] whose size fits a 64-bit index: Walk succeeds (with its own
+   fuel), and each (path, member) pair it reports satisfies Path.Apply(root) = member, whatever the nesting *)
+Theorem C19_walk_paths_resolve : forall norm unk t p, RT norm unk t p -> Z.of_nat (psize p) <= int64_max ->
+  exists l, walk (V t p) = Ok l /\ forall q x, In (q, x) l -> path_apply norm q (V t p) = Ok x.
+Proof. exact walk_resolves. Qed.
+Print Assumptions C19_walk_paths_resolve.
+(* the same at any starting path and any sufficient fuel: reported paths extend the starting path *)
+Theorem C19_walk_paths_resolve_any_fuel : forall norm unk n t p, RT norm unk t p -> (pdepth p <= n)%nat ->
+  Z.of_nat (psize p) <= int64_max -> forall f pre, (n < f)%nat ->
+  exists l, walk_at f pre (V t p) = Ok l /\
+    Forall (fun qx => exists q', fst qx = pre ++ q' /\ path_apply norm q' (V t p) = Ok (snd qx)) l.
+Proof. exact walk_resolves_at. Qed.
+Print Assumptions C19_walk_paths_resolve_any_fuel.
+(* the premises are satisfiable by a nested value, and the walk of that value has nine entries *)
+Example C19_resolve_nonvacuous :
+  let t := TObj [([97%N], TList (TTuple [TStr; TBool])); ([98%N], TMap TStr)] [] in
+  let p := PMap [([97%N], PSeq [PSeq [PStr [120%N]; PBool true]; PNull]); ([98%N], PMap [([107%N], PStr []); ([108%N], PNull)])] in
+  RT (fun s => s) false t p /\ Z.of_nat (psize p) <= int64_max /\
+  match walk (V t p) with Ok l => length l = 9%nat | _ => False end.
+Proof.
+  cbv zeta. split; [|split; [vm_compute; discriminate|vm_compute; reflexivity]].
+  apply RT_obj; [reflexivity|intros; reflexivity|].
+  repeat constructor; cbn; auto; try (intros; reflexivity).
+Qed.
